@@ -1,6 +1,8 @@
 import HqModel.Lemmas.SchedF2c
 /-!
-Lemmas for C15, part 9: fragment F2 — one worker, two request classes with ready tasks, equal class weights.
+Lemmas for C15, part 9: fragment F2 — one worker, two request classes with ready tasks, equal class weights, and
+both classes ask for cpus only (`Instance.CpuOnly`; the worker may have the second resource kind and tasks running
+there may use it).
 
 `priorityRespecting_of_inF2`: if the batches satisfy their closed-form specification (`BatchesSpec`, evaluated by
 the driver on every generated instance), every optimal solution of `milp inst` yields only priority-respecting
@@ -22,7 +24,7 @@ theorem map_eq_pair {α β} {f : α → β} {a b : β} : ∀ {l : List α}, l.ma
   | _ :: _ :: _ :: _, h => by simp at h
 
 theorem priorityRespecting_of_inF2 {inst : Instance} (hwf : inst.WF) (hF : inst.inF2 = true)
-    (hspec : BatchesSpec inst (batches inst))
+    (hco : inst.CpuOnly) (hspec : BatchesSpec inst (batches inst))
     {x : Assign} (hopt : Optimal (milp inst) x) {pl : Placement} (hv : ValidPlacement inst x pl) :
     PriorityRespecting inst pl := by
   intro h hh l hl w' hw'
@@ -39,11 +41,13 @@ theorem priorityRespecting_of_inF2 {inst : Instance} (hwf : inst.WF) (hF : inst.
   have hww : w = w' := by rw [hw] at hw'; exact (by simpa using hw' : w' = w).symm
   subst hww
   simp only [violatingPair, Bool.and_eq_true, Bool.not_eq_true', decide_eq_true_eq, fitsWithoutLower] at hvp
-  obtain ⟨⟨⟨⟨hnd, hon⟩, hlt⟩, hnb, hfit⟩, _⟩ := hvp
+  obtain ⟨⟨⟨⟨hnd, hon⟩, hlt⟩, ⟨hnb, hfit⟩, _⟩, _⟩ := hvp
   have hdl : pl.dispatched l.id = true := on_dispatched hon
   -- the two classes
   obtain ⟨hHr, hHq⟩ := cls_mem_readyClasses hh
   obtain ⟨hLr, hLq⟩ := cls_mem_readyClasses hl
+  have hc2H : inst.need2 h.cls = 0 := hco _ hHr
+  have hc2L : inst.need2 l.cls = 0 := hco _ hLr
   have hne : h.cls ≠ l.cls := by
     intro e
     have := dispatched_prio_ge hwf hv hh hl e hnd hdl
@@ -56,7 +60,7 @@ theorem priorityRespecting_of_inF2 {inst : Instance} (hwf : inst.WF) (hF : inst.
   have hfree := hwf.freeLeTotal w (by rw [hw]; simp)
   -- both classes can start on the worker
   have hpH : hasP inst w h.cls = true := by
-    simp only [hasP, Bool.and_eq_true, decide_eq_true_eq]
+    simp only [hasP, fitsNow_cpu hc2H, Bool.and_eq_true, decide_eq_true_eq]
     exact ⟨by rw [hnb]; rfl, by omega⟩
   have hcountL := hv.counts w (by rw [hw]; simp) l.cls hLq
   have hcountH := hv.counts w (by rw [hw]; simp) h.cls hHq
@@ -73,14 +77,15 @@ theorem priorityRespecting_of_inF2 {inst : Instance} (hwf : inst.WF) (hF : inst.
   rw [hpH] at hcountH
   simp only [↓reduceIte] at hcountL hcountH
   have hcapH : inst.need h.cls ≤ w.total := by
-    simp only [hasP, Bool.and_eq_true, decide_eq_true_eq] at hpH; omega
+    simp only [hasP, fitsNow_cpu hc2H, Bool.and_eq_true, decide_eq_true_eq] at hpH; omega
   have hcapL : inst.need l.cls ≤ w.total := by
-    simp only [hasP, Bool.and_eq_true, decide_eq_true_eq] at hpL; omega
+    simp only [hasP, fitsNow_cpu hc2L, Bool.and_eq_true, decide_eq_true_eq] at hpL; omega
   have hfreePos : 0 < w.free := by
-    simp only [hasP, Bool.and_eq_true, decide_eq_true_eq] at hpH; omega
+    simp only [hasP, fitsNow_cpu hc2H, Bool.and_eq_true, decide_eq_true_eq] at hpH; omega
+  have hcapH' : capable inst h.cls w = true := by rw [capable_cpu hc2H]; simpa using hcapH
   -- the batches
-  have hlimH : inst.limitOf h.cls > 0 := by rw [limitOf_one hw hcapH]; omega
-  have hlimL : inst.limitOf l.cls > 0 := by rw [limitOf_one hw hcapL]; omega
+  have hlimH : inst.limitOf h.cls > 0 := by rw [limitOf_one hw hc2H hcapH]; omega
+  have hlimL : inst.limitOf l.cls > 0 := by rw [limitOf_one hw hc2L hcapL]; omega
   obtain ⟨bH, bL, hbs, hbH, hbL⟩ : ∃ bH bL, (batches inst = [bH, bL] ∨ batches inst = [bL, bH]) ∧
       bH.rq = h.cls ∧ bL.rq = l.cls := by
     have hcl := hspec.classes
@@ -94,7 +99,8 @@ theorem priorityRespecting_of_inF2 {inst : Instance} (hwf : inst.WF) (hF : inst.
       obtain ⟨b1, b2, hb, h1, h2⟩ := map_eq_pair hcl
       exact ⟨b2, b1, Or.inr hb, h2, h1⟩
   have htb : TwoBatches inst w (batches inst) bH bL :=
-    ⟨hw, hbs, by rw [hbH, hbL]; exact hne, by rw [hbH]; exact hpH, by rw [hbL]; exact hpL⟩
+    ⟨hw, hbs, by rw [hbH, hbL]; exact hne, by rw [hbH]; exact hpH, by rw [hbL]; exact hpL,
+      by rw [hbH]; exact hc2H, by rw [hbL]; exact hc2L⟩
   have hreadyL : inst.readyClasses = [l.cls, h.cls] ∨ inst.readyClasses = [h.cls, l.cls] := hready.symm
   -- counts
   have hx : Feasible (milpOf inst (batches inst)) x := hopt.1
@@ -183,7 +189,7 @@ theorem priorityRespecting_of_inF2 {inst : Instance} (hwf : inst.WF) (hF : inst.
   unfold Row.holds at hrrx
   simp only [hrge, Bool.false_eq_true, ↓reduceIte, hrlhs, hrbound, hbH, hbL] at hrrx
   have hxL_lim : x (.P w.id l.cls) ≤ inst.limitOf l.cls :=
-    le_limitOf_one hw hcapL hnL (by omega)
+    le_limitOf_one hw hc2L hcapL hnL (by omega)
   -- the cut of L at that level
   have hmH_le : mH ≤ above inst h.cls ls.prio := by
     simp only [above]
@@ -219,7 +225,7 @@ theorem priorityRespecting_of_inF2 {inst : Instance} (hwf : inst.WF) (hF : inst.
       · exfalso
         obtain ⟨pre0, cut0, post0, e1, e2, e3, e4⟩ :=
           first_unbounded (c' := h.cls) (earlier := []) (by simp) hcut hblmem
-        have hrow := zeroRow_none_mem (bs := batches inst) (b := bL) (cut := cut0) hw hcapH
+        have hrow := zeroRow_none_mem (bs := batches inst) (b := bL) (cut := cut0) hw hcapH'
           (by rw [hbL]; exact hg) (by rw [hbL]; exact hpL)
         have hin : ({ ge := false, bound := cut0.size, terms := [(.P w.id bL.rq, 1)] } : Row) ∈
             cutRows inst (batches inst) bL ([] ++ pre0) cut0 := by
@@ -240,7 +246,7 @@ theorem priorityRespecting_of_inF2 {inst : Instance} (hwf : inst.WF) (hF : inst.
           · exact (List.pairwise_cons.mp hsorted.2.1).1 cut hin'
         omega
       · refine ⟨hg, ?_⟩
-        have hrow := gapRow_none_mem (bs := batches inst) (b := bL) (cut := cut) hw hcapH
+        have hrow := gapRow_none_mem (bs := batches inst) (b := bL) (cut := cut) hw hcapH'
           (by rw [hbL]; exact hg)
         have hholds := hrows_of_cut _ (cutRows_mem_of_blocker hblmem (Or.inl hrow))
         simp only [Row.holds, Bool.false_eq_true, ↓reduceIte, Row.lhs, theP, hpL, List.map_cons,
@@ -255,9 +261,9 @@ theorem priorityRespecting_of_inF2 {inst : Instance} (hwf : inst.WF) (hF : inst.
         by_cases hg : gap inst h.cls l.cls w = 0
         · right
           rw [zeroCond_one hw]
-          simp [hcapH, hbL, hg, hpL]
+          simp [hcapH', hbL, hg, hpL]
         · left
-          refine ⟨w, by rw [capableWorkers_one hw]; simp [hcapH], ?_⟩
+          refine ⟨w, by rw [capableWorkers_one hw]; simp [hcapH'], ?_⟩
           rw [hbL]; simpa using hg
       have hbrow := bRow_mem htb.memL hcvL hcut hblmem huses
       have hbholds := hx.1 _ ((TwoBatches.rows_iff _ _).mpr (Or.inr (Or.inr (Or.inl hbrow))))
@@ -275,14 +281,14 @@ theorem priorityRespecting_of_inF2 {inst : Instance} (hwf : inst.WF) (hF : inst.
         have hrow := zeroRow_some_mem (bs := batches inst) (b := bL) (cut := cut)
           (s := above inst h.cls ls.prio)
           (flag := (([] ++ pre).all fun e => !e.blockers.contains ((h.cls, some (above inst h.cls ls.prio)).1, none)))
-          hw hcapH (by rw [hbL]; exact hg) (by rw [hbL]; exact hpL) (by rw [← hbH]; exact hcvH)
+          hw hcapH' (by rw [hbL]; exact hg) (by rw [hbL]; exact hpL) (by rw [← hbH]; exact hcvH)
         have hholds := hrows_of_cut _ (cutRows_mem_of_blocker hblmem (Or.inr hrow))
         simp only [Row.holds, Bool.false_eq_true, ↓reduceIte, Row.lhs, List.map_cons,
           List.map_nil, List.sum_cons, List.sum_nil, hbL] at hholds
         omega
       · refine ⟨hg, ?_⟩
         have hrow := gapRow_some_mem (bs := batches inst) (b := bL) (cut := cut)
-          (s := above inst h.cls ls.prio) hw hcapH (by rw [hbL]; exact hg) (by rw [← hbH]; exact hcvH)
+          (s := above inst h.cls ls.prio) hw hcapH' (by rw [hbL]; exact hg) (by rw [← hbH]; exact hcvH)
         have hholds := hrows_of_cut _ (cutRows_mem_of_blocker hblmem (Or.inl hrow))
         simp only [Row.holds, Bool.false_eq_true, ↓reduceIte, Row.lhs, theP, hpL, List.map_cons,
           List.map_nil, List.cons_append, List.nil_append, List.sum_cons, List.sum_nil, hbL] at hholds
@@ -320,7 +326,7 @@ theorem priorityRespecting_of_inF2 {inst : Instance} (hwf : inst.WF) (hF : inst.
       | true =>
         have := (hspec.sizeReached bH htb.memH hre).1
         rw [this, hspec.limit bH htb.memH, hbH]
-        apply le_limitOf_one hw hcapH hnH
+        apply le_limitOf_one hw hc2H hcapH hnH
         rw [hbH, hbL] at hres
         omega
     · intro cut hcut bl hbl
@@ -356,9 +362,15 @@ theorem priorityRespecting_of_inF2 {inst : Instance} (hwf : inst.WF) (hF : inst.
   have hobj := hopt.2 _ hfeas
   change objective (milpOf inst (batches inst)) _ ≤ objective (milpOf inst (batches inst)) _ at hobj
   rw [htb.objective_eq, htb.objective_eq, exch_PH, exch_PL _ _ _ htb.ne, hbH, hbL,
-    weightP_one hw hfreePos (weight_of_classes hwt hHc), weightP_one hw hfreePos (weight_of_classes hwt hLc),
-    mul_form, mul_form, mul_form, mul_form, Nat.mul_add, Nat.mul_one] at hobj
-  have hgaplt := gap_mul_lt inst h.cls l.cls w hnH
+    weightP_one hw hfreePos hc2H (weight_of_classes hwt hHc),
+    weightP_one hw hfreePos hc2L (weight_of_classes hwt hLc)] at hobj
+  -- the factor common to all weights (free amount of the second kind, scale) is positive and cancels
+  have hK : 0 < max w.free2 1 * 1000000 := by
+    have : 0 < max w.free2 1 := by omega
+    omega
+  have hobj := obj_cancel hK hobj
+  rw [Nat.mul_add, Nat.mul_one] at hobj
+  have hgaplt := gap_mul_lt inst h.cls l.cls w hnH hc2H hc2L
   have h1 : inst.need l.cls * x (.P w.id l.cls) ≤
       inst.need l.cls * k + inst.need l.cls * gap inst h.cls l.cls w := by
     rw [← Nat.mul_add]; exact Nat.mul_le_mul_left _ hxL_le
